@@ -23,15 +23,6 @@ def rle : List (Nat × String) → List String
       | (k', v') :: rest' => if v' = v then go lo k' v rest' else s!"{lo}-{hi}={v}" :: go k' k' v' rest'
     go k k v rest
 
-/-- one renderer step for `c08.steps`: continue after `TooBig` exactly like a caller that catches it -/
-def stepsGo (s : RState) : List Item → List String → RState × List String
-  | [], acc => (s, acc)
-  | it :: rest, acc =>
-    match s.addItem it with
-    | .ok s' => stepsGo s' rest (acc ++ [s!"ok:{s'.out.length}:{s'.tbl.length}"])
-    | .tooBig s' => stepsGo s' rest (acc ++ [s!"big:{s'.out.length}:{s'.tbl.length}"])
-    | .err e => (s, acc ++ ["err:" ++ e.toString])
-
 def handleC08 : List String → Option String
   | "c08.sweep" :: lo :: hi :: pt :: rest => do
     let m ← parseMsgTokens rest
